@@ -17,6 +17,11 @@ P = "OdxVerif.Codec."
 THEOREMS = [P + t for t in ["C02_numrepr", "C02_atomic_layout", "C02_decode_reads", "C02_bit_exact_flat", "C02_bit_exact_struct", "Trees.enc_flat", "Obj.raw_eq_spec", "Obj.raw_spec", "Obj.canon_spec", "flat_described", "flat_undescribed", "read_place_roundtrip",
                             "getBit_place_inside", "getD_place_outside",
                             "C02_bit_exact_nested", "C02_overlap_iff_nested", "C02_bit_exact_nested_pre", "foot_reserved", "foot_nrcConst", "Desc.foot", "Desc.described", "descs_encodeMessage"]]
+# W17 (round-6 constructors: Desc2 / Foot2) — appended
+LEAN_TARGETS = LEAN_TARGETS + ["OdxVerif.Props.C02Nested2"]
+THEOREMS = THEOREMS + [P + t for t in ["C02_bit_exact_nested2", "C02_overlap_iff_nested2", "C02_bytesize_padding_silent", "Desc2.foot", "Desc2.described",
+                                       "descs2_encodeMessage", "Foot.to2", "Foot2.seq", "Foot2.sizePad", "foot2_structO", "Descs2.padOk_of_check",
+                                       "exBits2_ok", "exBits2_padOk", "C02_nested2_covers_nested", "Descs.to2_ok", "Desc.to2_lay", "Desc.to2_mc"]]
 GENERATORS = []
 RULE = ("(a) atomic: EncodeState.emplace_atomic_value / DecodeState.extract_atomic_value on pre-filled buffers, every base type x legal "
         "(and illegal) encoding x bit length x bit position x byte order x boundary values, valid and malformed streams, strict and lenient; "
